@@ -167,11 +167,23 @@ class _Extras(dict):
     """an `extras` dictionary of the generated side: kept as canonical JSON text there, so the order of its keys (and of
     the keys of nested dictionaries) carries no information - compared as a value"""
 
+class _Rec(dict):
+    """a dictionary with a fixed key set of the generated side (a record of the prelude): the order of ITS keys is not
+    represented by the translation - compared as a set of items (the values again with order)"""
+
+class _BadFloat:
+    def __init__(self, t): self.t = t
+    def __repr__(self): return f'<float text {self.t!r} is not canonical>'
+
 def ag_doc_decode(j):
     """ordered rendering of the driver -> Python value (dictionaries in the order of the generated document)"""
     if isinstance(j, list):
         tag = j[0]
         if tag == 'd': return {k: ag_doc_decode(v) for k, v in j[1]}
+        if tag == 'r': return _Rec((k, ag_doc_decode(v)) for k, v in j[1])
+        if tag == 'f':
+            try: return float(j[1]) if repr(float(j[1])) == j[1] else _BadFloat(j[1])
+            except ValueError: return _BadFloat(j[1])
         if tag == 'l': return [ag_doc_decode(v) for v in j[1]]
         if tag == 't': return {k: (v if k == 'name' else json.loads(v)) for k, v in j[1]}
         if tag == 'j': return _Extras(json.loads(j[1]))
@@ -200,7 +212,7 @@ def doc_same(real, gen, ordered=True, relax=()) -> bool:
     if isinstance(real, dict):
         if not isinstance(gen, dict) or len(real) != len(gen): return False
         kr, kg = list(real), list(gen)
-        if ordered:
+        if ordered and not isinstance(gen, _Rec):
             if any(type(a) is not type(b) or a != b for a, b in zip(kr, kg)): return False
         elif {(type(a), a) for a in kr} != {(type(b), b) for b in kg}: return False
         return all(doc_same(real[k], gen[k], ordered and k not in relax, relax) for k in kr)
@@ -211,6 +223,8 @@ def doc_same(real, gen, ordered=True, relax=()) -> bool:
 def doc_first_difference(real, gen, path='') -> str:
     """where two documents differ first (for the replay file)"""
     if isinstance(real, dict) and isinstance(gen, dict):
+        if isinstance(gen, (_Rec, _Extras)) and {(type(k).__name__, k) for k in real} == {(type(k).__name__, k) for k in gen}:
+            gen = {k: gen[k] for k in real}
         if [(type(k).__name__, k) for k in real] != [(type(k).__name__, k) for k in gen]:
             return f'{path}: keys {list(real)!r:.160} (impl) vs {list(gen)!r:.160} (generated)'
         for k in real:
@@ -247,3 +261,27 @@ def ag_exact_obs(o):
         if len(n) > 7 and n[7][2] != 'null':
             n[7] = list(n[7]); n[7][2] = _ttc(n[7][2])
     return c
+
+def m_doc_encode(x, key=None):
+    """a REAL instance-model document (what `Model._to_dict()` returned / the file layer loaded / a hand-edited one) in the
+    ordered rendering, for the generated `Model._from_dict` (driver op `gen_load_doc`): dictionaries with their key order and
+    key types, an `extras` dictionary as canonical JSON text, floats as their canonical text; a number under `defenses` is
+    what `float(...)` makes of it (the call `_from_dict` applies to it)"""
+    from .langgen import jtxt
+    if isinstance(x, dict):
+        if key == 'extras': return ['j', jtxt(x)]
+        if key == 'defenses':
+            return ['d', [[k, ['f', repr(float(v))] if isinstance(v, (int, float)) and not isinstance(v, bool) else m_doc_encode(v)] for k, v in x.items()]]
+        return ['d', [[k, m_doc_encode(v, k)] for k, v in x.items()]]
+    if isinstance(x, (list, tuple)): return ['l', [m_doc_encode(v) for v in x]]
+    if isinstance(x, float): return ['f', repr(x)]
+    return x
+
+def m_doc_compare(real, gen_rendered):
+    """-> None when the generated `Model._to_dict` document is the real one (key order of every dictionary whose keys are
+    computed; key SET of the fixed-key dictionaries; key and value types), else where they differ first"""
+    if isinstance(gen_rendered, dict) and 'error' in gen_rendered:
+        return 'the generated _to_dict raises ' + str(gen_rendered['error'])
+    gen = ag_doc_decode(gen_rendered)
+    if doc_same(real, gen): return None
+    return doc_first_difference(real, gen) or 'documents differ (inside extras)'
